@@ -16,7 +16,7 @@ func init() {
 		RealParts:  []string{"neat/genetics (population, species, both epoch executors, all operators)", "math/rand seeded from the tape", "real goroutines of the parallel executor, released one at a time by the tape-driven scheduler"},
 		StubParts:  []string{"fitness assignment (seeded landscape)", "choice of which reproduction goroutine runs next"},
 		Assumes:    []string{"fitness values are finite and non-negative", "PopSize >= 3", "worlds whose constructor already hands out a gene-less genome are skipped (precondition)"},
-		ProbeNames: []string{"probe.species>=2", "probe.new_species", "probe.species_extinct", "probe.delta_coding", "probe.stolen", "probe.parallel_epoch"},
+		ProbeNames: []string{"probe.species>=2", "probe.new_species", "probe.species_extinct", "probe.delta_coding", "probe.stolen", "probe.parallel_epoch", "probe.checkpoint_restore"},
 	})
 }
 
@@ -199,6 +199,22 @@ func scenarioC02(c *RunCtx) {
 					c.Fail("geneless-genome", "world [start=%s]: epoch %d produced an organism without genes (single-point crossover of unrelated parents whose first genes differ)", w.KindName, e)
 				}
 			}
+		}
+		if t.Chance("checkpoint", 1, 8) {
+			// save / restore in mid-run: what ReadPopulation restores is a new population (new species objects and ids);
+			// it must be a partition of the configured size, and the turnover clauses hold for it from here on
+			var cerr error
+			c.LibSoft("checkpoint", func() { cerr = w.Checkpoint() })
+			if cerr != nil {
+				c.Skip("checkpoint-error")
+			}
+			c.Count("probe.checkpoint_restore")
+			c.Op("checkpoint: population written and read back after epoch %d", e)
+			if inv, d := checkPartition(w.Pop, w.Opts.PopSize); inv != "" {
+				c.Fail("restore:"+inv, "world [%s] after the restore that follows epoch %d: %s", w.KindName, e, d)
+			}
+			po = newPartitionOracle(w.Pop)
+			continue
 		}
 		// reach probes and distinct states
 		nontrivial := false
